@@ -1,12 +1,12 @@
 SPECIFICATION GSpec
 CONSTANTS
-  BufSize = 2
+  BufSize = 4096
   MaxEmptyReads = 100
   NilCloseGuarded = TRUE
   MaxContent = 2
   MaxChunks = 3
   MaxChunk = 2
-  MaxRead = 2
+  ReadSizes = {0, 1, 2, 4096}
   MaxHist = 4
 VIEW GView
 CONSTRAINT GBound
